@@ -9,6 +9,14 @@
 use crate::gen;
 use crate::summary::Summary;
 use crate::sync_world::{SyncWorld, WIRE_TAP};
+
+/// Directory of the application log files (set by the `leak` world when it installs the logger).
+pub static LOGS_DIR: std::sync::Mutex<Option<PathBuf>> = std::sync::Mutex::new(None);
+static LOG_BYTES: std::sync::Mutex<u64> = std::sync::Mutex::new(0);
+pub fn set_logs_dir(p: PathBuf) {
+    *LOGS_DIR.lock().unwrap() = Some(p);
+}
+
 use crate::values;
 use aho_corasick::AhoCorasick;
 use anyhow::{anyhow, Result};
@@ -269,6 +277,22 @@ impl World {
                 self.scan_bytes(&ac, &raw, &format!("{} (raw)", a.display()), found).await;
                 for (n, d) in crate::archive_world::read_entries(a).await? {
                     self.scan_bytes(&ac, &d, &format!("{}!{n}", a.display()), found).await;
+                }
+            }
+        }
+        {
+            // application log files (sos_logs::Logger): Flow.tla lets nothing but
+            // identifiers and names reach them
+            let found = out.entry("log".to_string()).or_default();
+            if let Some(dir) = LOGS_DIR.lock().unwrap().clone() {
+                let mut files = Vec::new();
+                walk(&dir, &mut files);
+                for f in files {
+                    if let Ok(data) = std::fs::read(&f) {
+                        *self.bytes.lock().unwrap() += data.len() as u64;
+                        *LOG_BYTES.lock().unwrap() = data.len() as u64;
+                        self.scan_bytes(&ac, &data, &f.display().to_string(), found).await;
+                    }
                 }
             }
         }
@@ -545,6 +569,7 @@ pub async fn run_case(
             }
         }
     }
+    out.count("log_bytes", *LOG_BYTES.lock().unwrap());
     out.count("needles", w.reg.needles.len() as u64);
     out.count("bytes_scanned_in_directories", *w.bytes.lock().unwrap());
     out.count("wire_bytes", WIRE_TAP.lock().unwrap().as_ref().map(|b| b.len()).unwrap_or(0) as u64);
